@@ -110,6 +110,7 @@ where
 
 fn main() {
     let ctx = Ctx::from_args("C15");
+    ndv_checks::warm_up_f32();
     let acc = ctx.parallel(|shard, nshards| {
         let mut acc = Acc::new();
         let mut t = 0u64;
